@@ -165,6 +165,25 @@ Theorem C09_bam_closed_loop_paced : forall prio sa dp pf p t0 A0 B0,
 Proof. exact Net21Bam.bam_closed_loop_paced. Qed.
 Print Assumptions C09_bam_closed_loop_paced.
 
+(* ... and for every group that travels as a broadcast, PDU2 groups (any group extension) included *)
+Theorem C09_bam_closed_loop_paced_pdu1_and_pdu2 : forall prio sa dp pf ps p t0 A0 B0,
+  0 <= prio < 8 -> 0 <= sa < 255 -> (0 <= pf < 240 /\ ps = 255) \/ (240 <= pf < 256 /\ 0 <= ps < 256) ->
+  0 <= dp < 2 -> 8 < len p <= 1785 -> 0 < t0 ->
+  0 < n_bam_iv A0 < tp21_T1 ->
+  n_snd A0 = [] /\ n_rcv A0 = [] /\ n_timers A0 = [] ->
+  n_snd B0 = [] /\ n_rcv B0 = [] /\ n_timers B0 = [] ->
+  let pv := Net21Bam.bam_pgn dp pf ps in
+  let iv := n_bam_iv A0 in
+  let s0 := Net21.net_send (Net21.net0 A0 B0 t0) dp pf ps prio sa p in
+  Net21.wab s0 = [tp21_bam sa prio pv (len p) (Z.of_nat (npk (length p)))] /\ Net21.clk s0 = t0 /\
+  exists j, (Net21.qa (Net21.steps j s0) = [] /\ Net21.qb (Net21.steps j s0) = [] /\
+             n_snd (Net21.na (Net21.steps j s0)) = [] /\ n_rcv (Net21.nb (Net21.steps j s0)) = [] /\
+             Net21.evb (Net21.steps j s0) = deliveries B0 7 pv sa addr_GLOBAL p) /\
+    Net21Bam.tlog j s0 = map (fun k => (t0 + Z.of_nat (S k) * iv, tp21_dt sa addr_GLOBAL (dt_payload p (Z.of_nat k))))
+                             (seq 0 (npk (length p))).
+Proof. exact Net21Bam.bam_closed_loop_paced_any. Qed.
+Print Assumptions C09_bam_closed_loop_paced_pdu1_and_pdu2.
+
 (* T09.16: an FD broadcast of ANY payload of more than 60 bytes: data frame k leaves at exactly t0 + (k+1)·iv, the
    end-of-message status one interval after the last *)
 Theorem C09_fd_bam_closed_loop_paced : forall prio sa dp pf p t0 A0 B0,
